@@ -1,3 +1,576 @@
 package main
 
-func runCheck(args []string) int { return 2 }
+import (
+	"encoding/json"
+	"fmt"
+	"os"
+	"path/filepath"
+	"sort"
+	"strconv"
+	"strings"
+	"sync"
+	"time"
+
+	"govc/internal/eng"
+)
+
+// CheckSpec is /verif/checks/<id>.json.
+type CheckSpec struct {
+	Property string `json:"property"`
+	Modules  []struct {
+		Dir      string   `json:"dir"`
+		Prefix   string   `json:"prefix"`
+		Patterns []string `json:"patterns"`
+	} `json:"modules"`
+	Functions []FuncSpec `json:"functions"`
+	// Kinds restricts which obligation kinds are claimed for this property (empty = all generated).
+	Kinds       []string          `json:"kinds"`
+	Config      eng.CheckConfig   `json:"config"`
+	Analyses    []eng.AnalysisSpec `json:"analyses"`
+	Unregistered []struct {
+		Pattern string `json:"pattern"`
+		Reason  string `json:"reason"`
+	} `json:"unregistered"`
+	Assumptions []string `json:"assumptions"`
+	Undecided   []string `json:"undecided_clauses"`
+	TimeoutS    int      `json:"timeout_s"`
+	ThoroughTimeoutS int `json:"thorough_timeout_s"`
+	ThoroughFunctions []FuncSpec `json:"thorough_functions"`
+	Selftest    []SelftestCase `json:"selftest"`
+	// Closure adds every own function statically reachable from Functions (zero-annotation sweep).
+	Closure     bool     `json:"closure"`
+	ClosureSkip []string `json:"closure_skip"`
+}
+
+type FuncSpec struct {
+	Name     string   `json:"name"`
+	Kinds    []string `json:"kinds,omitempty"`
+	StrBytes bool     `json:"strbytes,omitempty"`
+	Inline   int      `json:"inline,omitempty"`
+	Why      string   `json:"why,omitempty"`
+}
+
+// SelftestCase is a deliberate break applied through the package overlay; Expect must fail.
+type SelftestCase struct {
+	Name    string `json:"name"`
+	File    string `json:"file"`    // path under /repo
+	Old     string `json:"old"`     // exact text to replace
+	New     string `json:"new"`
+	Expect  string `json:"expect"`  // obligation name (prefix) that must not be discharged
+}
+
+type Finding struct {
+	Status   string // known | fixed
+	Property string
+	Obl      string
+	Text     string
+}
+
+func readFindings(path string) []Finding {
+	data, err := os.ReadFile(path)
+	if err != nil {
+		return nil
+	}
+	var out []Finding
+	for _, line := range strings.Split(string(data), "\n") {
+		line = strings.TrimSpace(line)
+		if line == "" || strings.HasPrefix(line, "#") {
+			continue
+		}
+		f := Finding{}
+		switch {
+		case strings.HasPrefix(line, "known:"):
+			f.Status = "known"
+			line = strings.TrimSpace(line[6:])
+		case strings.HasPrefix(line, "fixed:"):
+			f.Status = "fixed"
+			line = strings.TrimSpace(line[6:])
+		default:
+			continue
+		}
+		for _, tok := range strings.Fields(line) {
+			if strings.HasPrefix(tok, "property=") {
+				f.Property = tok[9:]
+			}
+			if strings.HasPrefix(tok, "obligation=") {
+				f.Obl = tok[11:]
+			}
+		}
+		f.Text = line
+		out = append(out, f)
+	}
+	return out
+}
+
+const verifRoot = "/verif"
+
+func runCheck(args []string) int {
+	if len(args) < 2 || args[0] != "check" && args[0] != "selftest" {
+		fmt.Fprintln(os.Stderr, "usage: govc check <id> <quick|thorough> | govc selftest <id>")
+		return 2
+	}
+	mode := args[0]
+	id := args[1]
+	tier := "quick"
+	if len(args) > 2 {
+		tier = args[2]
+	}
+	if t := os.Getenv("VERIF_TIER"); t == "thorough" || t == "quick" {
+		if len(args) <= 2 {
+			tier = t
+		}
+	}
+	seed := 0
+	if sd := os.Getenv("VERIF_SEED"); sd != "" {
+		seed, _ = strconv.Atoi(sd)
+	}
+	data, err := os.ReadFile(filepath.Join(verifRoot, "checks", id+".json"))
+	if err != nil {
+		fmt.Fprintln(os.Stderr, err)
+		return 2
+	}
+	var spec CheckSpec
+	if err := json.Unmarshal(data, &spec); err != nil {
+		fmt.Fprintln(os.Stderr, "bad check spec:", err)
+		return 2
+	}
+	if mode == "selftest" {
+		return runSelftest(&spec)
+	}
+	t0 := time.Now()
+	run, err := executeSpec(&spec, tier, nil)
+	if err != nil {
+		fmt.Fprintln(os.Stderr, "ENGINE-ERROR:", err)
+		return 2
+	}
+	code := report(&spec, run, tier, seed, t0)
+	if tier == "thorough" && code == 0 && len(spec.Selftest) > 0 {
+		if rc := runSelftest(&spec); rc != 0 {
+			return rc
+		}
+	}
+	return code
+}
+
+type runResult struct {
+	Funcs    []*eng.FuncResult
+	Obls     []*eng.OblResult // claimed (registered) obligations
+	Unreg    []*eng.OblResult
+	Analyses []*eng.AnalysisResult
+	Contracts *eng.Contracts
+	Progs    []*eng.Program
+	Work     string
+	Missing  []string
+}
+
+func kindAllowed(kinds []string, k string) bool {
+	if len(kinds) == 0 {
+		return true
+	}
+	for _, x := range kinds {
+		if x == k {
+			return true
+		}
+	}
+	return false
+}
+
+func executeSpec(spec *CheckSpec, tier string, overlay map[string][]byte) (*runResult, error) {
+	work, err := os.MkdirTemp("", "govc-"+spec.Property+"-")
+	if err != nil {
+		return nil, err
+	}
+	rr := &runResult{Work: work}
+	timeout := time.Duration(spec.TimeoutS) * time.Second
+	if timeout == 0 {
+		timeout = 10 * time.Second
+	}
+	if tier == "thorough" {
+		timeout = time.Duration(spec.ThoroughTimeoutS) * time.Second
+		if timeout == 0 {
+			timeout = 60 * time.Second
+		}
+	}
+	var dirs []string
+	for _, m := range spec.Modules {
+		dirs = append(dirs, m.Dir)
+	}
+	files := loadContractFiles(append(dirs, filepath.Join(verifRoot, "specs"))...)
+	for path, data := range overlay {
+		b := filepath.Base(path)
+		if strings.HasPrefix(b, "verif_contracts") {
+			files[path] = string(data)
+		}
+	}
+	cs, err := eng.ParseContracts(files)
+	if err != nil {
+		return nil, err
+	}
+	rr.Contracts = cs
+	for _, m := range spec.Modules {
+		pats := m.Patterns
+		if len(pats) == 0 {
+			pats = []string{"./..."}
+		}
+		p, err := eng.Load(m.Dir, m.Prefix, overlay, pats...)
+		if err != nil {
+			return nil, err
+		}
+		rr.Progs = append(rr.Progs, p)
+	}
+	fns := append([]FuncSpec{}, spec.Functions...)
+	if tier == "thorough" {
+		fns = append(fns, spec.ThoroughFunctions...)
+	}
+	if spec.Closure {
+		have := map[string]bool{}
+		var roots []string
+		for _, fs := range fns {
+			have[fs.Name] = true
+			roots = append(roots, fs.Name)
+		}
+		skipSet := map[string]bool{}
+		for _, k := range spec.ClosureSkip {
+			skipSet[k] = true
+		}
+		for _, p := range rr.Progs {
+			for _, k := range p.Closure(roots, func(key string) bool {
+				if skipSet[key] {
+					return true
+				}
+				ct := cs.Funcs[key]
+				return ct != nil && ct.Flag("trusted")
+			}) {
+				if !have[k] && !skipSet[k] {
+					if ct := cs.Funcs[k]; ct != nil && ct.Flag("trusted") {
+						continue
+					}
+					have[k] = true
+					fns = append(fns, FuncSpec{Name: k, Why: "reachable from the listed functions"})
+				}
+			}
+		}
+	}
+	type job struct {
+		fs FuncSpec
+		p  *eng.Program
+	}
+	var jobs []job
+	for _, fs := range fns {
+		var found *eng.Program
+		for _, p := range rr.Progs {
+			if p.Funcs[fs.Name] != nil {
+				found = p
+			}
+		}
+		if found == nil {
+			rr.Missing = append(rr.Missing, fs.Name)
+			continue
+		}
+		jobs = append(jobs, job{fs, found})
+	}
+	results := make([]*eng.FuncResult, len(jobs))
+	var wg sync.WaitGroup
+	sem := make(chan struct{}, 8)
+	for i, j := range jobs {
+		wg.Add(1)
+		go func(i int, j job) {
+			defer wg.Done()
+			sem <- struct{}{}
+			defer func() { <-sem }()
+			cfg := spec.Config
+			cfg.Safety = true
+			if j.fs.StrBytes {
+				cfg.StrBytes = true
+			}
+			if j.fs.Inline > 0 {
+				cfg.InlineDepth = j.fs.Inline
+			}
+			results[i] = eng.VerifyFunc(j.p, cs, j.p.Funcs[j.fs.Name], &cfg, work, timeout)
+		}(i, j)
+	}
+	wg.Wait()
+	for i, r := range results {
+		rr.Funcs = append(rr.Funcs, r)
+		kinds := jobs[i].fs.Kinds
+		if len(kinds) == 0 {
+			kinds = spec.Kinds
+		}
+		for _, o := range r.Obls {
+			if !kindAllowed(kinds, o.Kind) {
+				continue
+			}
+			unreg := false
+			for _, u := range spec.Unregistered {
+				if ok, _ := filepath.Match(u.Pattern, o.Name); ok || strings.HasPrefix(o.Name, u.Pattern) {
+					unreg = true
+				}
+			}
+			if unreg {
+				rr.Unreg = append(rr.Unreg, o)
+			} else {
+				rr.Obls = append(rr.Obls, o)
+			}
+		}
+	}
+	for _, as := range spec.Analyses {
+		if as.Tier == "thorough" && tier != "thorough" {
+			continue
+		}
+		ar := eng.RunAnalysis(as, rr.Progs, cs, rr.Funcs, work, timeout)
+		rr.Analyses = append(rr.Analyses, ar)
+		for _, o := range ar.Obls {
+			unreg := false
+			for _, u := range spec.Unregistered {
+				if ok, _ := filepath.Match(u.Pattern, o.Name); ok || strings.HasPrefix(o.Name, u.Pattern) {
+					unreg = true
+				}
+			}
+			if unreg {
+				rr.Unreg = append(rr.Unreg, o)
+			} else {
+				rr.Obls = append(rr.Obls, o)
+			}
+		}
+	}
+	return rr, nil
+}
+
+func report(spec *CheckSpec, rr *runResult, tier string, seed int, t0 time.Time) int {
+	id := spec.Property
+	findings := readFindings(filepath.Join(verifRoot, "known_findings.txt"))
+	known := map[string]Finding{}
+	for _, f := range findings {
+		if f.Status == "known" && f.Property == id {
+			known[f.Obl] = f
+		}
+	}
+	replayDir := filepath.Join(verifRoot, "replays", id)
+	os.MkdirAll(replayDir, 0o755)
+	violations := 0
+	var lines []string
+	discharged := 0
+	backends := map[string]int{}
+	var solverMs int64
+	var samples []interface{}
+	for _, o := range rr.Obls {
+		solverMs += o.Ms
+		if o.Result == "discharged" {
+			discharged++
+			for _, b := range strings.Split(o.Backend, ",") {
+				backends[b]++
+			}
+			if len(samples) < 12 {
+				samples = append(samples, o)
+			}
+			continue
+		}
+		if kf, ok := known[o.Name]; ok {
+			lines = append(lines, fmt.Sprintf("KNOWN-FINDING: property=%s %s", id, kf.Text))
+			continue
+		}
+		violations++
+		path := filepath.Join(replayDir, sanitizeFile(o.Name)+".txt")
+		suffix := writeReplay(rr, o, path)
+		lines = append(lines, fmt.Sprintf("VIOLATION property=%s replay=%s obligation=%s %s%s", id, path, o.Name, o.Why, suffix))
+	}
+	var outside []string
+	var notes []string
+	noteSet := map[string]bool{}
+	var fnames []string
+	covers := 0
+	for _, f := range rr.Funcs {
+		fnames = append(fnames, f.Key)
+		if f.Unsupported != "" {
+			outside = append(outside, f.Key+": "+f.Unsupported)
+			violations++
+			path := filepath.Join(replayDir, sanitizeFile(f.Key)+".outside.txt")
+			os.WriteFile(path, []byte("function under contract is outside the verifier's reach on this tree: "+f.Unsupported+"\n"), 0o644)
+			lines = append(lines, fmt.Sprintf("VIOLATION property=%s replay=%s obligation=%s/within-reach function can no longer be translated: %s no-failing-input-found", id, path, f.Key, f.Unsupported))
+		} else if !f.CoverOK {
+			violations++
+			path := filepath.Join(replayDir, sanitizeFile(f.Key)+".vacuous.txt")
+			os.WriteFile(path, []byte("no feasible path reaches a return: contract or code is contradictory\n"), 0o644)
+			lines = append(lines, fmt.Sprintf("VIOLATION property=%s replay=%s obligation=%s/cover no feasible path to any return (vacuous proof) no-failing-input-found", id, path, f.Key))
+		} else {
+			covers++
+		}
+		for _, n := range f.Notes {
+			if !noteSet[n] {
+				noteSet[n] = true
+				notes = append(notes, n)
+			}
+		}
+	}
+	for _, m := range rr.Missing {
+		violations++
+		path := filepath.Join(replayDir, sanitizeFile(m)+".missing.txt")
+		os.WriteFile(path, []byte("function under contract not found in the tree: "+m+"\n"), 0o644)
+		lines = append(lines, fmt.Sprintf("VIOLATION property=%s replay=%s obligation=%s/bound contract target no longer exists no-failing-input-found", id, path, m))
+	}
+	sort.Strings(notes)
+	var unreg []map[string]string
+	for _, o := range rr.Unreg {
+		unreg = append(unreg, map[string]string{"name": o.Name, "result": o.Result, "why": o.Why})
+	}
+	var analyses []map[string]interface{}
+	for _, a := range rr.Analyses {
+		analyses = append(analyses, map[string]interface{}{"name": a.Name, "summary": a.Summary, "details": a.Details})
+	}
+	assumptions := append([]string{}, spec.Assumptions...)
+	assumptions = append(assumptions,
+		"integers are mathematical Ints with Go's wrap-around applied at every typed operation and conversion (not idealised)",
+		"the SSA-to-SMT translator (govc), go/ssa (x/tools v0.29.0), z3 4.8.12 / z3 5.1.0 / cvc5 1.0.3 are trusted",
+		"heap exhaustion, stack depth (other than through decreases clauses), scheduling and real time are not modelled",
+		"recover paths are not followed")
+	verifiedSet := map[string]bool{}
+	for _, f := range rr.Funcs {
+		if f.Unsupported == "" {
+			verifiedSet[f.Key] = true
+		}
+	}
+	for _, n := range notes {
+		if strings.HasPrefix(n, "uncontracted callee ") {
+			k := strings.SplitN(strings.TrimPrefix(n, "uncontracted callee "), ":", 2)[0]
+			if verifiedSet[k] {
+				continue // verified on its own in this run; callers use no facts about it
+			}
+		}
+		assumptions = append(assumptions, "engine note: "+n)
+	}
+	trusted := []string{"Go toolchain 1.23 + golang.org/x/tools v0.29.0 go/ssa (NaiveForm)", "govc translator /verif/govc", "SMT solvers z3-new 5.1.0, z3 4.8.12, cvc5 1.0.3 (first unsat wins; any sat is a failure)", "external contracts /verif/specs/external.spec", "hand-coded external specs: " + strings.Join(eng.TrustedSpecs, " | ")}
+	ev := map[string]interface{}{
+		"property_id": id,
+		"tier":        tier,
+		"seed":        seed,
+		"level":       "proof",
+		"coverage": map[string]interface{}{
+			"obligations":              len(rr.Obls),
+			"discharged":               discharged,
+			"checker_cmd":              fmt.Sprintf("/verif/bin/govc check %s %s", id, tier),
+			"trusted_base":             trusted,
+			"samples":                  samples,
+			"functions_under_contract": fnames,
+			"functions_covered":        covers,
+			"backends":                 backends,
+			"solver_ms":                solverMs,
+			"outside_reach":            outside,
+			"undecided_unregistered":   unreg,
+			"undecided_clauses":        spec.Undecided,
+			"analyses":                 analyses,
+			"known_findings_reported":  len(lines) - violations,
+		},
+		"assumptions": assumptions,
+		"wall_s":      time.Since(t0).Seconds(),
+		"violations":  violations,
+	}
+	os.MkdirAll(filepath.Join(verifRoot, "evidence"), 0o755)
+	data, _ := json.MarshalIndent(ev, "", " ")
+	os.WriteFile(filepath.Join(verifRoot, "evidence", id+".json"), data, 0o644)
+	for _, l := range lines {
+		fmt.Println(l)
+	}
+	fmt.Printf("%s %s: %d obligations, %d discharged, %d violations, %d functions, %.1fs\n", id, tier, len(rr.Obls), discharged, violations, len(rr.Funcs), time.Since(t0).Seconds())
+	os.RemoveAll(rr.Work)
+	if violations > 0 {
+		return 1
+	}
+	if len(rr.Obls) == 0 {
+		fmt.Println("ENGINE-ERROR: zero obligations generated")
+		return 2
+	}
+	return 0
+}
+
+func sanitizeFile(s string) string {
+	r := strings.NewReplacer("/", "_", "#", "-", " ", "_", "*", "", "(", "", ")", "", "$", "_")
+	return r.Replace(s)
+}
+
+// writeReplay writes the replay file of a failed obligation; returns the VIOLATION-line suffix.
+func writeReplay(rr *runResult, o *eng.OblResult, path string) string {
+	var b strings.Builder
+	fmt.Fprintf(&b, "obligation: %s\nkind: %s\nfunction: %s\nposition: %s\ndescription: %s\nresult: %s (%s)\n\n", o.Name, o.Kind, o.Func, o.Pos, o.Desc, o.Result, o.Why)
+	suffix := " no-failing-input-found"
+	var fr *eng.FuncResult
+	for _, f := range rr.Funcs {
+		if f.Key == o.Func {
+			fr = f
+		}
+	}
+	if o.FailQ != nil && fr != nil {
+		qpath := strings.TrimSuffix(path, ".txt") + ".smt2"
+		fr.Engine.DumpQuery(o.FailQ, qpath)
+		fmt.Fprintf(&b, "failing query: %s\n", qpath)
+		if o.Result == "failed" {
+			rep := eng.Replay(fr, o, rr.Work)
+			fmt.Fprintf(&b, "\n---- replay against the real code ----\n%s\n", rep.Log)
+			if rep.Reproduced {
+				suffix = ""
+				b.WriteString("\nREPRODUCED on the real code.\n")
+				if rep.TestFile != "" {
+					tpath := strings.TrimSuffix(path, ".txt") + "_test.go.txt"
+					os.WriteFile(tpath, []byte(rep.TestFile), 0o644)
+					fmt.Fprintf(&b, "test source: %s\n", tpath)
+				}
+			}
+		}
+	}
+	fmt.Fprintf(&b, "\n---- solver output ----\n%s\n", truncate(o.Raw, 6000))
+	os.WriteFile(path, []byte(b.String()), 0o644)
+	return suffix
+}
+
+func truncate(s string, n int) string {
+	if len(s) > n {
+		return s[:n] + "\n...[truncated]"
+	}
+	return s
+}
+
+// runSelftest applies each deliberate break through the overlay and requires the named obligation to fail.
+func runSelftest(spec *CheckSpec) int {
+	bad := 0
+	for _, tc := range spec.Selftest {
+		file := filepath.Join("/repo", tc.File)
+		data, err := os.ReadFile(file)
+		if err != nil {
+			fmt.Println("ENGINE-SELFTEST-FAILED", tc.Name, err)
+			bad++
+			continue
+		}
+		if !strings.Contains(string(data), tc.Old) {
+			fmt.Printf("ENGINE-SELFTEST-SKIPPED %s: anchor text not present in %s (code changed)\n", tc.Name, tc.File)
+			continue
+		}
+		mutated := strings.Replace(string(data), tc.Old, tc.New, 1)
+		rr, err := executeSpec(spec, "quick", map[string][]byte{file: []byte(mutated)})
+		if err != nil {
+			fmt.Println("ENGINE-SELFTEST-FAILED", tc.Name, err)
+			bad++
+			continue
+		}
+		caught := false
+		for _, o := range rr.Obls {
+			if o.Result != "discharged" && strings.HasPrefix(o.Name, tc.Expect) {
+				caught = true
+			}
+		}
+		for _, f := range rr.Funcs {
+			if f.Unsupported != "" && strings.HasPrefix(f.Key, tc.Expect) {
+				caught = true
+			}
+		}
+		os.RemoveAll(rr.Work)
+		if caught {
+			fmt.Printf("selftest %s: caught by %s\n", tc.Name, tc.Expect)
+		} else {
+			fmt.Printf("ENGINE-SELFTEST-FAILED %s: mutant not caught by %s\n", tc.Name, tc.Expect)
+			bad++
+		}
+	}
+	if bad > 0 {
+		return 2
+	}
+	return 0
+}
